@@ -15,9 +15,11 @@ ID = 'C19'
 LEVEL = 'fault_enumeration'
 RULE = ('Part 1, complete grid: scripts of one session shape {read-only, optimistic write, immediate, serializable, '
         'db_session(ddl=True) with DDL statements, db.drop_table/db.create_tables, raw db.get_connection(), one db_session '
-        'writing to two Database objects (either order, optimistic or immediate)} x end {normal exit, '
+        'writing to two Database objects (either order, optimistic or immediate), db_session(ddl=True) running 1-3 transactions '
+        '(commit()/rollback() in the middle)} x end {normal exit, '
         'body raises, explicit rollback(), commit() followed by more work} x {connection already pooled, pool empty so that the '
-        'session has to connect}; every call index k of the fault-free DB-API log (connect, cursor, execute, executemany, commit, '
+        'session has to connect}, the ddl and a few plain shapes also on a :memory: database (where the provider keeps the '
+        'connection pooled after a ddl session); every call index k of the fault-free DB-API log (connect, cursor, execute, executemany, commit, '
         'rollback, close) is failed with OperationalError before the call, OperationalError after the call was performed and '
         'IntegrityError before every execute, and the first of these also chained with: the next rollback fails (before / after), '
         'the next close fails, rollback and close both fail, the very next call of any kind fails too, and (script with a second '
@@ -27,7 +29,9 @@ RULE = ('Part 1, complete grid: scripts of one session shape {read-only, optimis
         'index k is failed once. One evaluation = one (script or actors+schedule, fault plan). After each session end: neither '
         'provider lock is held by the ending thread (single-thread part: by anybody) and no lock was released by a non-holder; '
         'every connection the layer created in that thread is the pool\'s current connection and open, or was closed exactly '
-        'once, and none was used after close (for every Database the script uses). At the end a write session over all '
+        'once, and none was used after close (for every Database the script uses); a connection that stays pooled has foreign '
+        'key enforcement in its initial state (PRAGMA foreign_keys = 1 read through the raw connection), and a following plain '
+        'session that inserts a dangling reference through db.execute gets IntegrityError. At the end a write session over all '
         'databases in the same thread and one in a new thread must finish '
         'without error and without waiting for a provider lock (the instrumented lock raises instead of waiting, so a hang is '
         'never judged by time). Non-trivial = the first fault was injected while provider.transaction_lock was held; distinct '
@@ -58,7 +62,26 @@ def _exit_commit_leaves_caches_unreleased(case, message):
     return bool(m) and 'AssertionError' in message and re.search(r'\(multi\w*, end=commit', m.group(1)) is not None
 
 
-EXCLUSIONS = {'exit_commit_leaves_caches_unreleased': _exit_commit_leaves_caches_unreleased}
+def _failed_connect_pools_half_initialised_connection(case, message):
+    """open finding C19-failed-connect-pools-half-initialised-connection: SQLitePool._connect assigns pool.con before it
+    configures the new connection; when `PRAGMA foreign_keys = true` fails the connection stays pooled and every later session
+    of the thread runs on it without foreign key enforcement."""
+    return 'foreign key enforcement switched off' in message and 'its initialisation was interrupted by the injected fault' in message
+
+
+def _memory_ddl_failure_leaves_fk_checks_off(case, message):
+    """open finding C19-memory-ddl-failure-leaves-fk-checks-off: on a :memory: database the provider never closes the connection
+    (SQLitePool.drop only rolls back), but the foreign key checks a ddl session switched off are restored only in release():
+    every way out of a ddl session that goes through drop() instead (transaction start failed, rollback failed) or that never
+    recorded saved_fk_state leaves the pooled connection without foreign key enforcement."""
+    sessions = list(case.get('script') or [])
+    return (bool(case.get('memory')) and bool(case.get('plan')) and any(s.get('kind', '').startswith('ddl') for s in sessions)
+            and 'foreign key enforcement switched off' in message and 'its initialisation was interrupted' not in message)
+
+
+EXCLUSIONS = {'exit_commit_leaves_caches_unreleased': _exit_commit_leaves_caches_unreleased,
+              'failed_connect_pools_half_initialised_connection': _failed_connect_pools_half_initialised_connection,
+              'memory_ddl_failure_leaves_fk_checks_off': _memory_ddl_failure_leaves_fk_checks_off}
 
 MANIFEST = {
     'text': 'Every DB-API call of every session shape (read-only, optimistic, immediate, serializable, ddl, raw connection; four '
@@ -100,6 +123,25 @@ def shapes():
             out.append({'kind': kind, 'end': end, 'cold': False})
     out.append({'kind': 'multi', 'end': 'commit', 'cold': True})
     out.append({'kind': 'multi', 'end': 'raise', 'cold': True})
+    for mid in H.DDL_MIDS:                      # db_session(ddl=True) running 1-3 transactions
+        for end in ('commit', 'raise'):
+            out.append({'kind': 'ddl_multi', 'mid': list(mid), 'end': end, 'cold': False})
+    out.append({'kind': 'ddl_multi', 'mid': ['commit'], 'end': 'commit', 'cold': True})
+    return out
+
+
+def memory_shapes():
+    """':memory:' database: the provider keeps the connection pooled where it closes the connection of a file database"""
+    out = []
+    for mid in H.DDL_MIDS:
+        for end in ('commit', 'raise'):
+            out.append({'kind': 'ddl_multi', 'mid': list(mid), 'end': end, 'cold': False})
+    for end in H.ENDS:
+        out.append({'kind': 'ddl', 'end': end, 'cold': False})
+    out.append({'kind': 'ddl_api', 'end': 'commit', 'cold': False})
+    for kind in ('optimistic', 'immediate', 'rawconn'):
+        for end in ('commit', 'raise'):
+            out.append({'kind': kind, 'end': end, 'cold': False})
     return out
 
 
@@ -108,7 +150,11 @@ def grid_cells():
     for sh in shapes():
         for cname, chain in CHAINS:
             script = [sh, dict(SECOND)] if 'connect' in cname else [sh]
-            cells.append((script, cname, chain))
+            cells.append((script, cname, chain, False))
+    for sh in memory_shapes():
+        for cname, chain in CHAINS:
+            if cname in ('alone', 'rollback-before', 'next-call'):
+                cells.append(([sh], cname, chain, True))
     return cells
 
 
@@ -138,6 +184,8 @@ def run(ctx):
     from hypothesis import strategies as st
     sess = st.fixed_dictionaries({'kind': st.sampled_from([k for k in H.KINDS if k != 'ddl_api'] + ['multi', 'multi_rev', 'multi_immediate']),
                                   'end': st.sampled_from(H.ENDS), 'cold': st.just(False)})
+    sess = st.one_of(sess, sess, sess, st.fixed_dictionaries({'kind': st.just('ddl_multi'), 'mid': st.sampled_from([list(m) for m in H.DDL_MIDS]),
+                                                            'end': st.sampled_from(['commit', 'raise']), 'cold': st.just(False)}))
     actors = st.lists(st.lists(sess, min_size=1, max_size=2), min_size=2, max_size=3)
     schedule = st.lists(st.integers(0, 5), min_size=0, max_size=30)
     found = {}
@@ -180,15 +228,16 @@ def run(ctx):
 
     # ---------------- part 1: complete grid, sharded by cell index
     logs = {}
-    for ci, (script, cname, chain) in enumerate(grid_cells()):
+    for ci, (script, cname, chain, memory) in enumerate(grid_cells()):
         if ci % ctx.nshards != ctx.shard:
             continue
-        key = chash(script)
+        key = chash([script, memory])
+        extra = {'memory': True} if memory else {}
         if key not in logs:
             info = {}
-            msg = H.run_script_case(template, path, script, [], info)
-            ctx.case(key=[script, 'nofault'], nontrivial=False, classes=['part:grid', 'fault:none'])
-            judge(ctx, {'script': script, 'plan': []}, msg)
+            msg = H.run_script_case(template, path, script, [], info, memory=memory)
+            ctx.case(key=[script, memory, 'nofault'], nontrivial=False, classes=['part:grid', 'fault:none'])
+            judge(ctx, dict({'script': script, 'plan': []}, **extra), msg)
             if info.get('natural_errors'):
                 raise RuntimeError('fault-free script %r fails on its own: %r' % (script, info['natural_errors']))
             logs[key] = info.get('calls', [])
@@ -201,13 +250,15 @@ def run(ctx):
                 plan = [{'at': k, 'when': when, 'exc': exc}] + [dict(e) for e in chain]
                 nt = bool(call.get('probe'))
                 classes = ['part:grid', 'chain:' + cname, 'kind:' + call['kind'], 'shape:' + script[0]['kind'], 'when:' + when]
+                if memory:
+                    classes.append('database:memory')
                 if nt:
                     classes.append('nontrivial')
-                case = {'script': script, 'plan': plan}
+                case = dict({'script': script, 'plan': plan}, **extra)
                 ctx.case(key=case, nontrivial=nt, classes=classes,
                          sample={'script': script, 'plan': plan, 'call': call['kind'], 'sql': (call['sql'] or '')[:50],
                                  'lock_held_at_fault': nt} if (k + ci) % 37 == 5 else None)
-                judge(ctx, case, H.run_script_case(template, path, script, plan))
+                judge(ctx, case, H.run_script_case(template, path, script, plan, memory=memory))
 
 
 def replay(case):
@@ -220,7 +271,7 @@ def replay(case):
         if 'actors' in case:
             msg = H.run_actors_case(template, path, case['actors'], case['schedule'], case.get('plan') or [])
         else:
-            msg = H.run_script_case(template, path, case['script'], case.get('plan') or [])
+            msg = H.run_script_case(template, path, case['script'], case.get('plan') or [], memory=bool(case.get('memory')))
         if msg and msg.startswith('inconclusive'):
             raise RuntimeError(msg)
         if msg and msg.startswith('harness:'):
